@@ -1,5 +1,6 @@
 import XMT.Drv.Util
 import XMT.Group
+import XMT.Drv.C19
 namespace XMT.Drv.C17
 open XMT XMT.Group XMT.Drv
 
@@ -123,6 +124,8 @@ def handle (args : List String) : String :=
           " ".intercalate (["group", ",".intercalate (g.entries.map (toString ·.ptr)), s!"sel={g.sel}", "|"]
             ++ runGroup g ops)
     | _, _ => "bad-op"
+  -- the consumer (Session.listen): the client-loop model of C19 (XMT/ClientLoop.lean)
+  | "loop" :: rest => XMT.Drv.C19.handle ("loop" :: rest)
   | _ => "bad-op"
 
 end XMT.Drv.C17
